@@ -399,6 +399,10 @@ class M2mCheck(object):
         if r.random() < 0.3:
             # keys that are equal without being the same object: a tuple built anew at every use, 1.0 next to 1
             A, B = A + [[7, 8], '<1.0>'], B + [[7, 8], '<1.0>']
+        hub = r.random() < 0.06
+        if hub:
+            # one value linked to dozens of keys (a tag on many items) and one key with dozens of values
+            A, B = list(range(100, 141)) + ['a'], ['hub', 'h2', 1] + list(range(200, 236))
         for _ in range(r.randint(1, r.choice([6, 20, 60]))):
             side = r.choice(['fwd', 'fwd', 'inv'])
             ks, vs = (A, B) if side == 'fwd' else (B, A)
@@ -421,6 +425,9 @@ class M2mCheck(object):
             else:
                 ops.append([side, 'update', r.choice(['m2m', 'dict', 'pairs', 'iter']),
                             [[r.choice(ks), r.choice(vs)] for _ in range(r.choice([0, 1, 2, 4]))]])
+        if hub:
+            init = [[k, 'hub'] for k in A[:r.choice([31, 32, 33, 40])]] + [['a', v] for v in B[3:3 + r.choice([31, 32, 36])]]
+            return {'kind': 'm2m', 'init': init, 'ops': ops[:25], 'hub': True}
         return {'kind': 'm2m', 'init': [[r.choice(A), r.choice(B)] for _ in range(r.choice([0, 0, 2, 4]))], 'ops': ops}
 
     def run(self, h, stats=None):
